@@ -78,7 +78,9 @@ def judge(sess, o):
     n_at = o.marks.get("attempts_at_close", 0)
     if len(sess.gw.attempts) > n_at:
         out.append(("connect_after_close", {}, f"{len(sess.gw.attempts) - n_at} connection attempt(s) started after close() was entered"))
-    open_conns = [c.cid for c in sess.gw.conns if not (c.closed_by_client or c.lost or c.reset or c.eof_sent)]
+    # the client's current link is its latest connection: a gateway that has only half-closed it (EOF) has not shut it;
+    # older connections the gateway ended are not 'the link' any more
+    open_conns = [c.cid for c in sess.gw.conns if not (c.closed_by_client or c.lost or c.reset or (c.eof_sent and c is not sess.gw.conns[-1]))]
     if open_conns:
         out.append(("connection_left_open", {}, f"connections {open_conns} never closed by the client"))
     still = [x for x in o.marks.get("open_at_close_return", []) if x]
